@@ -1270,6 +1270,9 @@ def mapSites : List (String × Nat × String × Bool × SiteClass) := [
   ("vm.VirtualMachine.Clone", 0, "mapwrite", false, .insertFold),
   ("vm.VirtualMachine.Clone", 1, "mapwrite", false, .insertFold),
   ("vm.VirtualMachine.applyOptions", 0, "mapwrite", false, .insertFold),
+  -- since /repo afc3565 (the C18 repair): reloadCode deletes from vm.loadedCode every key whose Root() is the
+  -- main code; which keys go is decided by the key alone, so the map left behind does not depend on the visiting order
+  ("vm.VirtualMachine.reloadCode", 0, "call,mapdelete", false, .deleteFold),
   ("vm.WithGlobals", 0, "mapwrite", false, .insertFold),
   ("vm.basicBuiltins", 0, "mapwrite", false, .testOnly),
   ("vm.basicBuiltins", 1, "mapwrite", false, .testOnly),
